@@ -1,0 +1,66 @@
+//! Verification hooks (only with `--cfg num_bigint_verif`): coverage probes, a work
+//! counter for the multiply-accumulate row routine, and thin wrappers that expose a few
+//! internal routines on raw digit slices.  Nothing here changes library behaviour.
+#![allow(missing_docs, clippy::all)]
+
+use alloc::vec::Vec;
+use core::sync::atomic::{AtomicU64, Ordering::Relaxed};
+
+pub const NPROBES: usize = 64;
+
+#[allow(clippy::declare_interior_mutable_const)]
+const ZERO: AtomicU64 = AtomicU64::new(0);
+static HITS: [AtomicU64; NPROBES] = [ZERO; NPROBES];
+static WORK: AtomicU64 = AtomicU64::new(0);
+
+// probe ids
+pub const ADD_ASM: usize = 0;
+pub const ADD_TAIL: usize = 1;
+pub const ADD_PROP: usize = 2;
+pub const SUB_ASM: usize = 3;
+pub const SUB_TAIL: usize = 4;
+pub const SUB_PROP: usize = 5;
+pub const MUL_SCHOOL: usize = 6;
+pub const MUL_HALF: usize = 7;
+pub const MUL_KARA: usize = 8;
+pub const MUL_TOOM3: usize = 9;
+pub const MUL_KARA_PLUS: usize = 10;
+pub const MUL_KARA_MINUS: usize = 11;
+pub const MUL_KARA_ZERO: usize = 12;
+pub const DIV_A0_EQ_B0: usize = 13;
+pub const DIV_CORR: usize = 14;
+pub const DIV_ADDBACK: usize = 15;
+pub const DIV_CORE: usize = 16;
+pub const MONTY_SUB: usize = 17;
+pub const MONTY_NOSUB: usize = 18;
+pub const MONTY_FINAL_SUB: usize = 19;
+pub const RADIX_BIGBASE: usize = 20;
+pub const PLAIN_MODPOW: usize = 21;
+pub const MONTY_MODPOW: usize = 22;
+
+#[inline]
+pub(crate) fn hit(id: usize) {
+    HITS[id].fetch_add(1, Relaxed);
+}
+
+#[inline]
+pub(crate) fn work(n: usize) {
+    WORK.fetch_add(n as u64, Relaxed);
+}
+
+pub fn hits() -> Vec<u64> {
+    HITS.iter().map(|h| h.load(Relaxed)).collect()
+}
+
+pub fn reset() {
+    for h in HITS.iter() {
+        h.store(0, Relaxed);
+    }
+    WORK.store(0, Relaxed);
+}
+
+pub fn work_count() -> u64 {
+    WORK.load(Relaxed)
+}
+
+pub use crate::biguint::verif_hooks::*;
